@@ -12,8 +12,9 @@ import (
 // (a function that stores session fields), its header and the blocks outside
 // the loop that are entered from inside it.
 func descentLoop(p *Program, f *ssa.Function) (header *ssa.BasicBlock, loop map[*ssa.BasicBlock]bool, exits []*ssa.BasicBlock) {
-	isDecoder := func(g *ssa.Function) bool {
-		if g == nil || !trieScope(g) {
+	var isDecoderD func(g *ssa.Function, d int) bool
+	isDecoderD = func(g *ssa.Function, d int) bool {
+		if g == nil || !trieScope(g) || len(g.Blocks) == 0 {
 			return false
 		}
 		found := false
@@ -23,8 +24,33 @@ func descentLoop(p *Program, f *ssa.Function) (header *ssa.BasicBlock, loop map[
 					found = true
 				}
 			}
+			// a decoder may delegate the bit-range part to another decoder it hands the session to
+			if c, ok := in.(*ssa.Call); ok && d < 1 && !found {
+				passes := false
+				for _, a := range c.Call.Args {
+					if isSessionPtr(a) {
+						passes = true
+					}
+				}
+				if passes && isDecoderD(calleeOf(c), d+1) {
+					found = true
+				}
+			}
 		})
 		return found
+	}
+	isDecoder := func(g *ssa.Function) bool {
+		// the decoder is handed the session (it does not create it)
+		if g == nil {
+			return false
+		}
+		hasParam := false
+		for _, prm := range g.Params {
+			if isSessionPtr(prm) {
+				hasParam = true
+			}
+		}
+		return hasParam && isDecoderD(g, 0)
 	}
 	for _, b := range f.Blocks {
 		for _, in := range b.Instrs {
